@@ -76,6 +76,23 @@ def parseOp (f : List String) : Option Op :=
     if op.startsWith "R_" then (tyOf (op.drop 2).toString).map (fun t => .rRead t) else none
   | _ => none
 
+/-- String-carrying hex fields must be well-formed hex of valid UTF-8 (mirror of `strings_ok` in the
+harness). -/
+def utf8Ok (s : String) : Bool :=
+  s == "-" || (match bytesOfHex s with
+    | some b => (String.fromUTF8? (ByteArray.mk b.toArray)).isSome
+    | none => false)
+
+def stringsOk (f : List String) : Bool :=
+  match f with
+  | [op, _, v] =>
+    if op == "w_str" || op == "w_cstr" || op == "w_label" then v == "~" || utf8Ok v
+    else if op == "w_labels" then v == "!" || (v.splitOn "/").all utf8Ok
+    else true
+  | [op, v] =>
+    if op == "find" || op == "W_str" || op == "W_cstr" || op == "W_label" then v == "~" || utf8Ok v else true
+  | _ => true
+
 /-! ### printing (must reproduce `state_str` / `exec` of harness/src/fam/binops.rs) -/
 
 def joinOr (sep : String) (l : List String) : String := if l.isEmpty then "-" else sep.intercalate l
@@ -164,6 +181,10 @@ def family : Family where
       match st with
       | some s =>
         if s.id != id then (st, "nostate", "FAIL nostate") else
+        if !stringsOk opf then
+          -- a line the shrinker mangled (string field no longer UTF-8): not executed by the harness
+          (some { s with obs := Oracle.parseObs i }, "badutf8 | " ++ stateStr s.sys, "ok skip malformed case line")
+        else
         match parseOp opf with
         | none => (st, "badop", "FAIL badop")
         | some op =>
